@@ -550,3 +550,32 @@ Example C12_witness_rx_modes :
                     (starts_rx (Some (bs "-"%bs)) wit_rs (bs "CCA-TGAAATA-AC"%bs) f)) /\
   starts_rx (Some (bs "-"%bs)) wit_rs (bs "CCA-TGAAATA-AC"%bs) 2 = [2].
 Proof. exact (conj eq_refl (conj rx_modes_witness eq_refl)). Qed.
+
+(* the default codon sets are custom codon sets for every safe gap set, so C12_custom_modes_spec / C12_custom_is_orf /
+   C12_custom_invariants state the default-settings clause (with is_orf_x on the text itself) under every gap option *)
+Theorem C12_default_words_ok : forall g, gap_safe g = true -> words_ok g START_WORDS = true /\ words_ok g STOP_WORDS = true.
+Proof. exact default_words_ok. Qed.
+Print Assumptions C12_default_words_ok.
+
+(* ... and the hypothesis is discharged syntactically: when every word of the start pattern begins with a residue (head_ok: the
+   pattern begins with letters / positive classes of characters that are no gap characters -- A[TU]G, (ATG), AT+G, ATG|GTG|TTG,
+   the default 'start'), every start match begins on a residue, hence before the end of the last residue; then EVERY mode
+   equals its specification for every text, gap option of the safe symbols and rf without repeated frames *)
+Theorem C12_rx_modes_spec_plain : forall gap (rs rp : C13_Rx.rx) r ns need_stop minlen s,
+  gap_safe (gap_set gap) = true -> head_ok (fun c => negb (is_gap_g (gap_set gap) c)) rs = true ->
+  nodupz (frames_of r) = true ->
+  find_orfs_rx gap rs rp (RAspec r) ns need_stop minlen s =
+  XOk (concat (map (fun f => filter (fun o => o_stop o - o_start o >=? minlen)
+                               (map (mk_orf f (Z.of_nat (length s)))
+                                    (spec_mode ns need_stop (Z.of_nat (frame_start_g (gap_set gap) (strand_data s f) f))
+                                               (Z.of_nat (last_res_g (gap_set gap) (strand_data s f))) (Z.of_nat (length s))
+                                               (starts_rx gap rs s f) (stops_rx gap rp s f))))
+                   (frames_of r))).
+Proof. exact rx_modes_spec_plain. Qed.
+Print Assumptions C12_rx_modes_spec_plain.
+
+Example C12_witness_head_ok :
+  gap_safe (gap_set (Some (bs ".-"%bs))) = true /\
+  head_ok (fun c => negb (is_gap_g (gap_set (Some (bs ".-"%bs))) c)) wit_rs = true /\
+  head_ok (fun c => negb (is_gap_g (gap_set (Some (bs ".-"%bs))) c)) (C13_Rx.XCat C13_Rx.XDot (C13_Rx.XChr "G"%byte)) = false.
+Proof. exact (conj eq_refl (conj eq_refl eq_refl)). Qed.
